@@ -253,6 +253,7 @@ def fconst(tok, ty):
         else:
             d = float(tok)
         if d == d and abs(d) < 2**31 and d == int(d): return f"((IE_T){int(d)})"
+        if d == d and abs(d) >= 2.0**62: return "IE_POSINF" if d > 0 else "IE_NEGINF"     # DBL_MAX-style sentinels: beyond every in-range value
         if d == d and d not in (float('inf'), float('-inf')):
             fr = Fraction(d)
             return f"IEFRAC({fr.numerator},{fr.denominator})"
